@@ -1540,6 +1540,12 @@ func c02scenarios() []*scenario {
 		add("n4-cmp-refuses-A-byz-leader2-R2-strategy", 4, []int64{1}, in4b(), v12, 2, opt{noForge: true, reject: rej(3, 1)})
 		add("n4-cmp-refuses-A-byz-leader1-R2-strategy", 4, []int64{0}, in4b(), v12, 2, opt{noForge: true, reject: rej(2, 1)})
 	}
+	// n=5 and n=6: the sizes at which quorum (ceil(2n/3) = 4) and 2f+1 (= 3) DIFFER - for n=4 and n=7 they coincide, so a
+	// threshold written as 2f+1 instead of the quorum is invisible there. A Byzantine leader of round 1 that equivocates
+	// (A to a majority, B to a minority) and forges; three honest behaviours: one member that sees the commits, the rest of the
+	// majority, the minority.
+	add("n6-byz-leader1-R2-forge", 6, []int64{0}, map[int64]int64{1: 1, 2: 1, 3: 1, 4: 2, 5: 2}, v12, 2, opt{parts: [][][]int{{{0}, {1, 2}, {3, 4}}}})
+	add("n5-byz-leader1-R2-forge", 5, []int64{0}, map[int64]int64{1: 1, 2: 1, 3: 2, 4: 2}, v12, 2, opt{parts: [][][]int{{{0}, {1}, {2, 3}}}})
 	add("n4-one-without-input-R2", 4, nil, map[int64]int64{1: 2, 2: 3, 3: 4}, nil, 2, opt{})
 	add("n4-byz-leader1-R1-noise1", 4, []int64{0}, in4b(), v12, 1, opt{noise: 1, parts: [][][]int{{{0, 1, 2}}, {{0}, {1, 2}}}})
 	add("n3-distinct-R2-noise1", 3, nil, in3(), nil, 2, opt{noise: 1, parts: [][][]int{{{0, 1, 2}}, {{0}, {1, 2}}}})
